@@ -1,6 +1,8 @@
-/- `genk <kernel> <hex floats…>`: a translated kernel (Gen/Kernels.lean) evaluated at Float. -/
+/- `genk <kernel> <hex floats…>`: a translated kernel (Gen/Kernels.lean) evaluated at Float.
+   `genprog <program> <switch string> <hex floats…>`: a translated prior program → prior entries. -/
 import PysersicModel.Gen.Kernels
 import PysersicModel.Driver.Util
+import PysersicModel.Driver.Prob
 
 namespace Pysersic.Driver
 
@@ -14,5 +16,16 @@ def genkCmd (args : List String) : String :=
       | none => "bad-op genk " ++ name
     | none => "bad-float"
   | _ => "bad-op genk"
+
+def genprogCmd (args : List String) : String :=
+  match args with
+  | name :: sw :: rest =>
+    match parseFs rest with
+    | some xs =>
+      match Gen.K.evalProgF name sw xs.toArray with
+      | some out => showEntries out
+      | none => "bad-op genprog " ++ name
+    | none => "bad-float"
+  | _ => "bad-op genprog"
 
 end Pysersic.Driver
